@@ -6,6 +6,7 @@ import FxpVerif.Model.Dtype
 import FxpVerif.Model.Strings
 import FxpVerif.Model.Bits
 import FxpVerif.Model.Infer
+import FxpVerif.Model.Scale
 /-! Line-protocol helpers for the correspondence driver (core Lean only). -/
 namespace Fxp.Proto
 
